@@ -69,7 +69,7 @@ def case_strategy(draw):
         c["upper"] = draw(st.sampled_from([None, "above", "max"]))
     if which == "bs_invalid":
         c["invalid"] = draw(st.sampled_from(["df_too_small", "negative_degree", "float_degree", "df_knots_inconsistent", "knots_outside", "lower_gt_upper",
-                                              "neither", "knots_2d", "float_df"]))
+                                              "neither", "knots_2d", "float_df", "lower_above_data", "upper_below_data"]))
     c["later_frac"] = draw(st.lists(st.integers(0, 100), min_size=1, max_size=8))
     return c
 
@@ -216,6 +216,15 @@ def judge(ctx, case):
             kw["knots"] = [[float(np.median(x))]]
         elif inv == "float_df":
             kw["df"] = degree + 2.5
+        elif inv in ("lower_above_data", "upper_below_data"):
+            # only one bound given, on the wrong side of the data, and no inner knot that could trip another check
+            kw["df"] = max(1, degree + (1 if intercept else 0))
+            if kw["df"] < 1 or (degree == 0 and not intercept):
+                kw["degree"], kw["intercept"], kw["df"] = 2, True, 3
+            if inv == "lower_above_data":
+                kw["lower_bound"] = hi + 1.5
+            else:
+                kw["upper_bound"] = lo - 1.5
         classes.append("invalid:" + inv)
         count(True)
         try:
